@@ -473,3 +473,56 @@ def scan_kinds(chk, rule, shorts, sym):
                                        f"`{norm(node)[:90]}` passes a {got} where `{last}` expects an expression: column identities "
                                        f"are handed over in the wrong form (TypeError `invalid type` at run time)")  # fmt: skip
     return n
+
+
+def col_name_uses(module, func, cls_name):
+    """every `<x>.name` in `func` where x is known to be a COL object; yields (node, allowed_as_label)"""
+    ki = KindInfer(module, func, cls_name, set(CACHE_FIELD_KINDS))
+    env: dict = {}
+    # kinds of simple locals (two passes for chains)
+    for _ in range(2):
+        for n in ast.walk(func):
+            if isinstance(n, ast.Assign) and len(n.targets) == 1 and isinstance(n.targets[0], ast.Name):
+                k = ki.kind(n.value, env)
+                if k is not None:
+                    env[n.targets[0].id] = k
+    for a in ast.walk(func):
+        if not (isinstance(a, ast.Attribute) and a.attr == "name" and isinstance(a.ctx, ast.Load)):
+            continue
+        env2 = dict(env)
+        chain = []
+        p = parent(a)
+        while p is not None and p is not func:
+            if isinstance(p, (ast.ListComp, ast.SetComp, ast.GeneratorExp, ast.DictComp)):
+                chain.append(p)
+            elif isinstance(p, ast.For):
+                chain.append(p)
+            p = parent(p)
+        for c in reversed(chain):
+            gens = c.generators if not isinstance(c, ast.For) else [c]
+            for g in gens:
+                ek = ki.elem_kind(g.iter, env2)
+                if ek is None and isinstance(g.iter, ast.Attribute) and g.iter.attr in ("select", "group_by") and norm(g.iter.value) in ("node", "nd"):
+                    ek = ("COL",)
+                ki.bind(g.target, ek, env2)
+        if ki.kind(a.value, env2) != ("COL",):
+            continue
+        par = parent(a)
+        label = isinstance(par, ast.Call) and (dotted(par.func) or "").split(".")[-1] == "Col" and par.args and par.args[0] is a
+        yield a, label
+
+
+def cache_name_discipline(chk, rule):
+    """rule instances: in the cache layer a Col object's .name may only label a new Col(...)"""
+    from .source import norm as _n
+
+    cmod = chk.repo.mod("pipe.cache")
+    n = 0
+    for fq in ("Cache.update", "Cache.requires_subquery", "Cache.selected_cols"):
+        f = cmod.func(fq)
+        for a, label in col_name_uses(cmod, f, "Cache"):
+            n += 1
+            chk.ob(rule, cmod, a, f"{fq}: {_n(parent(a))[:70]}", label,
+                   f"`{fq}` reads `{_n(a)}` of a Col object kept in the cache and uses it as a column name (`{_n(parent(a))[:80]}`): after a "
+                   "rename / join suffix that is the creation-time name, not the current one - names reported and resolved by the table go stale")  # fmt: skip
+    return n
